@@ -102,11 +102,19 @@ struct symdef { char kind[12]; char name[96]; uint64_t val; };
 static struct symdef syms[256]; static unsigned nsyms;
 /* `hide <kind> <name> <status>`: look-ups of that one name fail with that status (`hide - - ok` = none) */
 static char hide_kind[16], hide_name[96]; static int hide_st;
+/* C16 histories (`xhide <kind> <name> <status>`): any number of further names, in force until `hide - - ok`; the
+ * translation context is NOT replaced by xhide / kbad / kunbad / sysonly, so that what a tolerated failure left in the
+ * context is still there when the next call runs */
+struct xhide { char kind[16]; char name[96]; int st; };
+static struct xhide xh[64]; static unsigned nxh;
 static addrxlat_status look(const addrxlat_cb_t *cb, const char *kind, const char *name, addrxlat_addr_t *val)
 {
 	unsigned i;
 	if (hide_st && !strcmp(hide_kind, kind) && !strcmp(hide_name, name))
 		return cb_fail(cb, hide_st, "refused", name);
+	for (i = 0; i < nxh; ++i)
+		if (!strcmp(xh[i].kind, kind) && !strcmp(xh[i].name, name))
+			return cb_fail(cb, xh[i].st, "refused", name);
 	for (i = nsyms; i-- > 0; )
 		if (!strcmp(syms[i].kind, kind) && !strcmp(syms[i].name, name)) { *val = syms[i].val; return ADDRXLAT_OK; }
 	if (c16mode) {
@@ -287,8 +295,34 @@ int main(void)
 			c16mode = t;        /* 1: tags, E lines and P lines; 2: tags and E lines */
 		} else if (!strncmp(line, "unbad", 5)) {
 			nbad = 0; new_ctx();
+		} else if (sscanf(line, "xhide %15s %95s %31s", kind, sname, fmt) == 3) {
+			if (nxh < 64) { strcpy(xh[nxh].kind, kind); strcpy(xh[nxh].name, sname); xh[nxh].st = status_of(fmt); ++nxh; }
+		} else if (sscanf(line, "kbad %d %" SCNu64 " %31s", &t, &a, sname) == 3) {
+			/* like `bad`, the context stays */
+			if (nbad < 256) { bad[nbad].as = t; bad[nbad].a = a; bad[nbad].st = status_of(sname); ++nbad; }
+		} else if (!strncmp(line, "kunbad", 6)) {
+			nbad = 0;
+		} else if (!strncmp(line, "sysonly", 7)) {
+			/* a new translation system used with the SAME context */
+			addrxlat_sys_decref(sys); sys = addrxlat_sys_new();
+		} else if (sscanf(line, "xwalk %" SCNu64, &a) == 1) {
+			/* addrxlat_walk with the method SYS_MAP_HW assigns to the address */
+			addrxlat_map_t *map = addrxlat_sys_get_map(sys, ADDRXLAT_SYS_MAP_HW);
+			addrxlat_sys_meth_t mi = map ? addrxlat_map_search(map, a) : ADDRXLAT_SYS_METH_NONE;
+			addrxlat_step_t step; addrxlat_status st;
+			memset(&step, 0, sizeof step);
+			if (mi == ADDRXLAT_SYS_METH_NONE) {
+				puts("E xwalk none ev=0 | -");
+			} else {
+				step.ctx = ctx; step.sys = sys; step.meth = addrxlat_sys_get_meth(sys, mi);
+				step.base.as = ADDRXLAT_KVADDR; step.base.addr = a;
+				st = addrxlat_walk(&step);
+				printf("> xwalk %s %d %" PRIu64 "\n", xstatus_name(st), (int)step.base.as, (uint64_t)step.base.addr);
+				c16_line("xwalk", st);
+			}
 		} else if (sscanf(line, "hide %15s %95s %31s", kind, sname, fmt) == 3) {
 			strcpy(hide_kind, kind); strcpy(hide_name, sname); hide_st = status_of(fmt);
+			if (!hide_st) nxh = 0;
 		} else if (sscanf(line, "sym %15s %95s %" SCNu64, kind, sname, &a) == 3) {
 			if (nsyms < 256) { strcpy(syms[nsyms].kind, kind); strcpy(syms[nsyms].name, sname); syms[nsyms].val = a; ++nsyms; }
 		} else if (!strncmp(line, "osinit", 6)) {
